@@ -28,7 +28,46 @@ _ORIG = {
     ("np", "uniform"): _np.random.uniform,
     ("np", "random"): _np.random.random,
     ("np", "normal"): _np.random.normal,
+    ("random", "choice"): _random.choice,
+    ("random", "randrange"): _random.randrange,
+    ("random", "randint"): _random.randint,
+    ("np", "permutation"): _np.random.permutation,
+    ("np", "randint"): _np.random.randint,
+    ("np", "rand"): _np.random.rand,
 }
+_ORIG_RANDOM_CLS = _random.Random
+_ORIG_DEFAULT_RNG = _np.random.default_rng
+_ORIG_RANDOMSTATE = _np.random.RandomState
+_ACTIVE = [None]
+
+
+def _from_votekit(depth=2):
+    """was the caller (depth frames up) code of the library under test?"""
+    import sys
+    try:
+        return sys._getframe(depth).f_globals.get("__name__", "").startswith("votekit")
+    except ValueError:
+        return False
+
+
+class _SeenRandom(_ORIG_RANDOM_CLS):
+    """random.Random as seen from the library: creating a private generator is noted on the active interposer"""
+    def __init__(self, *a, **kw):
+        super().__init__(*a, **kw)
+        if _ACTIVE[0] is not None and _from_votekit():
+            _ACTIVE[0].private += 1
+
+
+def _seen_default_rng(*a, **kw):
+    if _ACTIVE[0] is not None and _from_votekit():
+        _ACTIVE[0].private += 1
+    return _ORIG_DEFAULT_RNG(*a, **kw)
+
+
+def _seen_randomstate(*a, **kw):
+    if _ACTIVE[0] is not None and _from_votekit():
+        _ACTIVE[0].private += 1
+    return _ORIG_RANDOMSTATE(*a, **kw)
 
 UNIFORM_MENU = [0.0, 1.0, 0.5]
 RANDOM_MENU = [0.0, 0.999999999, 0.5]
@@ -66,6 +105,23 @@ class Rng:
         # once exhausted 0.5 is returned
         self.floats = None if floats is None else list(floats)
         self.float_calls = 0
+        # randomness the wrappers did not see: the global generators' state moved without a wrapped call (random.choice,
+        # getrandbits, np.random.permutation, ... any primitive not listed above), or the library built a private generator
+        self.unseen = 0
+        self.private = 0
+        self._known = None
+
+    def _fp(self):
+        st = _np.random.get_state()
+        return (hash(_random.getstate()), hash((st[1].tobytes(), st[2], st[3], st[4])))
+
+    def _real(self, key, *a, **kw):
+        """delegate to the real primitive - on the interposer's OWN seeded generators, so that the global generators'
+        state only moves when the library draws through something that is not wrapped (checked once, on exit)"""
+        mod, name = key
+        if mod == "random":
+            return getattr(self._pyr, name)(*a, **kw)
+        return getattr(self._npr, {"random": "random_sample"}.get(name, name))(*a, **kw)
 
     # -------------------------------------------------------------- plumbing
     def __enter__(self):
@@ -82,6 +138,20 @@ class Rng:
         _np.random.uniform = self._np_uniform
         _np.random.random = self._np_random
         _np.random.normal = self._np_normal
+        _random.choice = self._choice
+        _random.randrange = self._randrange
+        _random.randint = self._randint
+        _np.random.permutation = self._np_permutation
+        _np.random.randint = self._np_randint
+        _np.random.rand = self._np_rand
+        _random.Random = _SeenRandom
+        _np.random.default_rng = _seen_default_rng
+        _np.random.RandomState = _seen_randomstate
+        self._prev_active = _ACTIVE[0]
+        _ACTIVE[0] = self
+        self._pyr = _ORIG_RANDOM_CLS(self.seed)
+        self._npr = _ORIG_RANDOMSTATE(self.seed % (2 ** 32))
+        self._known = self._fp()
         return self
 
     def __exit__(self, *a):
@@ -95,13 +165,27 @@ class Rng:
         _np.random.uniform = _ORIG[("np", "uniform")]
         _np.random.random = _ORIG[("np", "random")]
         _np.random.normal = _ORIG[("np", "normal")]
+        _random.choice = _ORIG[("random", "choice")]
+        _random.randrange = _ORIG[("random", "randrange")]
+        _random.randint = _ORIG[("random", "randint")]
+        _np.random.permutation = _ORIG[("np", "permutation")]
+        _np.random.randint = _ORIG[("np", "randint")]
+        _np.random.rand = _ORIG[("np", "rand")]
+        _random.Random = _ORIG_RANDOM_CLS
+        _np.random.default_rng = _ORIG_DEFAULT_RNG
+        _np.random.RandomState = _ORIG_RANDOMSTATE
+        _ACTIVE[0] = self._prev_active
+        if self._known is not None and self._fp() != self._known:
+            self.unseen += 1
+        self._known = None
         _random.setstate(self._saved_state[0])
         _np.random.set_state(self._saved_state[1])
         return False
 
     @property
     def draws(self):
-        return len(self.events)
+        """number of random draws met (wrapped calls, plus one per detected unwrapped consumption / private generator)"""
+        return len(self.events) + self.unseen + self.private
 
     def _decide(self, nbranch):
         """positional decision; records the branching factor"""
@@ -139,7 +223,7 @@ class Rng:
             return res
         if k > len(pop):
             self._ev("random.sample", population=pop, k=k, result=None, short=True)
-        res = _ORIG[("random", "sample")](population, k, **kw)
+        res = self._real(("random", "sample"), population, k, **kw)
         self._ev("random.sample", population=pop, k=k, result=list(res))
         return res
 
@@ -154,7 +238,7 @@ class Rng:
             self._ev("random.choices", population=pop, weights=None if weights is None else list(weights),
                      k=k, result=res, decision=d, nbranch=len(idx), index=idx[d])
             return res
-        res = _ORIG[("random", "choices")](population, weights, cum_weights=cum_weights, k=k)
+        res = self._real(("random", "choices"), population, weights, cum_weights=cum_weights, k=k)
         self._ev("random.choices", population=pop, weights=None if weights is None else list(weights), k=k,
                  result=list(res))
         return res
@@ -174,7 +258,7 @@ class Rng:
             d = self._decide(len(menu))
             self._ev("random.uniform", a=a, b=b, result=menu[d], decision=d, nbranch=len(menu))
             return menu[d]
-        res = _ORIG[("random", "uniform")](a, b)
+        res = self._real(("random", "uniform"), a, b)
         self._ev("random.uniform", a=a, b=b, result=res)
         return res
 
@@ -187,7 +271,7 @@ class Rng:
             d = self._decide(len(RANDOM_MENU))
             self._ev("random.random", result=RANDOM_MENU[d], decision=d, nbranch=len(RANDOM_MENU))
             return RANDOM_MENU[d]
-        res = _ORIG[("random", "random")]()
+        res = self._real(("random", "random"), )
         self._ev("random.random", result=res)
         return res
 
@@ -200,11 +284,62 @@ class Rng:
                 x[i] = cp[j]
             self._ev("random.shuffle", n=len(cp), decision=d, nbranch=len(menu))
             return None
-        _ORIG[("random", "shuffle")](x)
+        self._real(("random", "shuffle"), x)
         self._ev("random.shuffle", n=len(x))
         return None
 
+    def _choice(self, seq):
+        seq_l = list(seq)
+        if self._scripted("random.choice") and len(seq_l) > 0:
+            d = self._decide(len(seq_l))
+            self._ev("random.choice", population=seq_l, result=seq_l[d], decision=d, nbranch=len(seq_l))
+            return seq_l[d]
+        res = self._real(("random", "choice"), seq)
+        self._ev("random.choice", population=seq_l, result=res)
+        return res
+
+    def _randrange(self, *a, **kw):
+        rg = range(*a, **kw) if not kw else None
+        if self._scripted("random.randrange") and rg is not None and 0 < len(rg) <= 64:
+            d = self._decide(len(rg))
+            self._ev("random.randrange", args=list(a), result=rg[d], decision=d, nbranch=len(rg))
+            return rg[d]
+        res = self._real(("random", "randrange"), *a, **kw)
+        self._ev("random.randrange", args=list(a), result=res)
+        return res
+
+    def _randint(self, a, b):
+        if self._scripted("random.randint") and 0 < b - a + 1 <= 64:
+            d = self._decide(b - a + 1)
+            self._ev("random.randint", args=[a, b], result=a + d, decision=d, nbranch=b - a + 1)
+            return a + d
+        res = self._real(("random", "randint"), a, b)
+        self._ev("random.randint", args=[a, b], result=res)
+        return res
+
     # -------------------------------------------------------------- numpy.random.*
+    def _np_permutation(self, x):
+        n = x if isinstance(x, (int, _np.integer)) else len(x)
+        if self._scripted("np.permutation") and n > 0:
+            menu = _perm_menu(int(n), int(n))
+            d = self._decide(len(menu))
+            base = _np.arange(n) if isinstance(x, (int, _np.integer)) else _np.array(x)
+            self._ev("np.permutation", n=int(n), decision=d, nbranch=len(menu))
+            return base[list(menu[d])]
+        res = self._real(("np", "permutation"), x)
+        self._ev("np.permutation", n=int(n))
+        return res
+
+    def _np_randint(self, *a, **kw):
+        res = self._real(("np", "randint"), *a, **kw)
+        self._ev("np.randint", args=[str(x) for x in a], result=res)
+        return res
+
+    def _np_rand(self, *a):
+        res = self._real(("np", "rand"), *a)
+        self._ev("np.rand", args=list(a), result=res)
+        return res
+
     def _np_choice(self, a, size=None, replace=True, p=None):
         if self._scripted("np.choice") and size is None:
             pop = list(range(a)) if isinstance(a, (int, _np.integer)) else list(a)
@@ -216,7 +351,7 @@ class Rng:
                          result=res, decision=d, nbranch=len(idx), index=idx[d])
                 # mimic numpy's return type for str arrays
                 return _np.array(pop)[idx[d]] if not isinstance(a, (int, _np.integer)) else res
-        res = _ORIG[("np", "choice")](a, size=size, replace=replace, p=p)
+        res = self._real(("np", "choice"), a, size=size, replace=replace, p=p)
         self._ev("np.choice", a=list(range(a)) if isinstance(a, (int, _np.integer)) else list(a), size=size,
                  replace=replace, p=None if p is None else list(p), result=res)
         return res
@@ -230,22 +365,22 @@ class Rng:
                 x[i] = cp[j]
             self._ev("np.shuffle", n=len(cp), decision=d, nbranch=len(menu))
             return None
-        _ORIG[("np", "shuffle")](x)
+        self._real(("np", "shuffle"), x)
         self._ev("np.shuffle", n=len(x))
         return None
 
     def _np_uniform(self, low=0.0, high=1.0, size=None):
-        res = _ORIG[("np", "uniform")](low, high, size)
+        res = self._real(("np", "uniform"), low, high, size)
         self._ev("np.uniform", low=low, high=high, size=size, result=res)
         return res
 
     def _np_random(self, size=None):
-        res = _ORIG[("np", "random")](size)
+        res = self._real(("np", "random"), size)
         self._ev("np.random", size=size, result=res)
         return res
 
     def _np_normal(self, loc=0.0, scale=1.0, size=None):
-        res = _ORIG[("np", "normal")](loc, scale, size)
+        res = self._real(("np", "normal"), loc, scale, size)
         self._ev("np.normal", loc=loc, scale=scale, size=size, result=res)
         return res
 
